@@ -196,6 +196,10 @@ def run_execution(cfg):
             if replay is not None:
                 ov = replay.get(str(inv), {})
                 s.overrides = {(k if str(k).startswith("y") else int(k)): v for k, v in ov.items()}
+            cj = w.take_fault(lambda f: f["kind"] == "clock-jump" and f.get("inv") == inv)
+            if cj:
+                s.clock_jump = (cj["n"], cj["delta"])
+                s.on_progress = lambda what: w.fire(what)
             cs = w.take_fault(lambda f: f["kind"] == "crash" and f.get("at") == "step" and f.get("inv") == inv)
             if cs:
                 s.crash_at_step = cs["n"]
